@@ -13,11 +13,15 @@ package main
 //   EncodeAlpha                          exact   raw method: no oracle; lossless method: the four lossless.Encode
 //                                        outputs are handed to the model as its codec oracle       (op alenc)
 //   header byte                          exact   vs encodeAlphaInternal's first byte                (op alpack)
-//   imageHasAlpha/extractAlphaWith       exact   NRGBA, NRGBA sub-image, RGBA                       (op alextract)
+//   imageHasAlpha/extractAlphaWith       exact   NRGBA, NRGBA sub-image (also full parent width), RGBA, and the generic
+//                                        img.At() path: image.Image-only wrapper, NRGBA64, RGBA64, Paletted (graded-alpha
+//                                        palette), Alpha, each on a rectangle with Min=(mx,my), mostly mx != my (op alextract)
 //   quality -> level count               the documented mapping in alpha.go's comment vs the model (op allevels)
 // plus, on the real code only (Kind "property"): unfilter∘filter = id, DecodeAlpha∘EncodeAlpha = id (quality 100)
 // or = quantizeLevels (quality < 100), level count / min / max of quantizeLevels, and END-TO-END
-// webp.Encode (lossy) -> webp.Decode over AlphaCompression x AlphaFiltering x AlphaQuality x Method x Exact x pattern.
+// webp.Encode (lossy) -> webp.Decode over AlphaCompression x AlphaFiltering x AlphaQuality x Method x Exact x pattern
+// x storage kind of the source (the nine kinds above) x bounds origin, plus wide pictures (WideWidths x WideHeights) and
+// threshold-crossing sizes (thresholds.go) with cheap content.
 
 import (
 	"bytes"
@@ -183,6 +187,8 @@ type alItem struct {
 	remk  func(w, h int, p []byte) (string, string) // rebuild (line, go) for a cropped plane; nil = not shrinkable
 	w, h  int
 	plane []byte
+	extra map[string]any // added to the finding input (what a replay needs beyond the line), may be nil
+	sig   string         // suffix of the finding signature, may be empty
 }
 
 func mkFilter(f int) func(w, h int, p []byte) (string, string) {
@@ -225,48 +231,196 @@ func mkFmap(mode, effort int) func(w, h int, p []byte) (string, string) {
 	}
 }
 
-// imgFromAlpha wraps alpha samples into an image of the given storage kind (0 NRGBA, 1 NRGBA sub-image, 2 RGBA).
-func imgFromAlpha(p []byte, w, h, kind int) image.Image {
-	switch kind {
-	case 1:
-		big := image.NewNRGBA(image.Rect(0, 0, w+3, h+2))
+// ---------- storage kinds: how a picture (or an alpha plane) is held in memory ----------
+
+const (
+	alStNRGBA    = iota // *image.NRGBA (fast path of imageHasAlpha / extractAlphaWith)
+	alStSubNRGBA        // *image.NRGBA sub-image at parent offset (2,1), Stride > 4*w (fast path)
+	alStRGBA            // *image.RGBA, premultiplied (fast path)
+	alStGeneric         // image.Image-only wrapper over an NRGBA: only At/Bounds/ColorModel (generic path)
+	alStNRGBA64         // *image.NRGBA64 (generic path)
+	alStRGBA64          // *image.RGBA64, premultiplied (generic path)
+	alStPaletted        // *image.Paletted, 256-entry palette whose entry i has alpha i (generic path)
+	alStAlpha           // *image.Alpha (generic path)
+	alStSubBand         // *image.NRGBA sub-image with x-origin 0 and the parent's full width: Stride == 4*w, parent rows above and below (fast path)
+	numAlStorage
+)
+
+var alStorageNames = []string{"NRGBA", "subimage", "RGBA", "generic", "NRGBA64", "RGBA64", "Paletted", "Alpha", "subband"}
+
+func alStorageByName(n string) (int, bool) {
+	for i, s := range alStorageNames {
+		if s == n {
+			return i, true
+		}
+	}
+	return 0, false
+}
+
+// alPlace = storage kind + Bounds().Min of the source picture handed to the encoder.
+type alPlace struct{ st, ox, oy int }
+
+func (p alPlace) isDefault() bool { return p == alPlace{} }
+func (p alPlace) String() string {
+	return fmt.Sprintf("%s@(%d,%d)", alStorageNames[p.st], p.ox, p.oy)
+}
+
+// originClass names the relation between Min.X and Min.Y (row/column origin mix-ups need Min.X != Min.Y).
+func (p alPlace) originClass() string {
+	switch {
+	case p.ox == 0 && p.oy == 0:
+		return "zero"
+	case p.ox == p.oy:
+		return "equal"
+	case p.oy == 0:
+		return "x-only"
+	case p.ox == 0:
+		return "y-only"
+	case p.ox < 0 || p.oy < 0:
+		return "negative"
+	}
+	return "both"
+}
+
+// alOrigins: Bounds().Min values; all but the last three have Min.X != Min.Y.
+var alOrigins = [][2]int{{-3, 2}, {5, 0}, {0, 4}, {-7, -2}, {11, 3}, {2, 9}, {-1, -6}, {1, 0}, {0, 1}, {0, -1}, {-2, 0}, {3, -4}, {4, 4}, {-5, -5}, {0, 0}}
+
+func alDrawOrigin(r *RNG) (int, int) {
+	o := alOrigins[r.Intn(len(alOrigins))]
+	return o[0], o[1]
+}
+
+// alGenericImage hides the concrete type: only At()/Bounds()/ColorModel() are available.
+type alGenericImage struct{ im image.Image }
+
+func (g alGenericImage) ColorModel() color.Model { return g.im.ColorModel() }
+func (g alGenericImage) Bounds() image.Rectangle { return g.im.Bounds() }
+func (g alGenericImage) At(x, y int) color.Color { return g.im.At(x, y) }
+
+// alPaletteGraded: entry i has alpha i (so that every alpha value is representable exactly).
+func alPaletteGraded() color.Palette {
+	pal := make(color.Palette, 256)
+	for i := range pal {
+		pal[i] = color.NRGBA{byte(i * 3), byte(255 - i), byte(i ^ 0x5a), byte(i)}
+	}
+	return pal
+}
+
+// alStore re-stores the picture src in storage kind pl.st on a rectangle whose Min is (pl.ox, pl.oy). The alpha
+// the result holds at (Min.X+x, Min.Y+y) is exactly src's alpha at (x, y) for every kind (RGBA / RGBA64 are
+// premultiplied, Paletted / Alpha drop the colours: colours are not part of C07). Deterministic: no RNG.
+func alStore(src *image.NRGBA, pl alPlace) image.Image {
+	if pl.isDefault() && src.Rect.Min == (image.Point{}) {
+		return src
+	}
+	sb := src.Bounds()
+	w, h := sb.Dx(), sb.Dy()
+	ox, oy := pl.ox, pl.oy
+	rect := image.Rect(ox, oy, ox+w, oy+h)
+	each := func(f func(x, y int, c color.NRGBA)) {
+		for y := 0; y < h; y++ {
+			for x := 0; x < w; x++ {
+				f(x, y, src.NRGBAAt(sb.Min.X+x, sb.Min.Y+y))
+			}
+		}
+	}
+	switch pl.st {
+	case alStSubNRGBA, alStSubBand:
+		pr, sr := image.Rect(ox, oy, ox+w+3, oy+h+2), image.Rect(ox+2, oy+1, ox+2+w, oy+1+h)
+		if pl.st == alStSubBand {
+			pr, sr = image.Rect(ox, oy, ox+w, oy+h+3), image.Rect(ox, oy+1, ox+w, oy+1+h)
+		}
+		big := image.NewNRGBA(pr)
 		for i := range big.Pix {
 			big.Pix[i] = 0x55 // alpha 0x55 outside the sub-image: must not be seen
 		}
-		sub := big.SubImage(image.Rect(2, 1, 2+w, 1+h)).(*image.NRGBA)
-		for y := 0; y < h; y++ {
-			for x := 0; x < w; x++ {
-				sub.SetNRGBA(2+x, 1+y, color.NRGBA{byte(x * 7), byte(y * 5), 9, p[y*w+x]})
-			}
-		}
+		sub := big.SubImage(sr).(*image.NRGBA)
+		each(func(x, y int, c color.NRGBA) { sub.SetNRGBA(sr.Min.X+x, sr.Min.Y+y, c) })
 		return sub
-	case 2:
-		img := image.NewRGBA(image.Rect(0, 0, w, h))
-		for y := 0; y < h; y++ {
-			for x := 0; x < w; x++ {
-				a := p[y*w+x]
-				img.SetRGBA(x, y, color.RGBA{a / 2, a / 3, a, a})
-			}
-		}
-		return img
+	case alStRGBA:
+		d := image.NewRGBA(rect)
+		each(func(x, y int, c color.NRGBA) { d.Set(ox+x, oy+y, c) })
+		return d
+	case alStNRGBA64:
+		d := image.NewNRGBA64(rect)
+		each(func(x, y int, c color.NRGBA) {
+			d.SetNRGBA64(ox+x, oy+y, color.NRGBA64{uint16(c.R) * 0x101, uint16(c.G) * 0x101, uint16(c.B) * 0x101, uint16(c.A) * 0x101})
+		})
+		return d
+	case alStRGBA64:
+		d := image.NewRGBA64(rect)
+		each(func(x, y int, c color.NRGBA) { d.Set(ox+x, oy+y, c) })
+		return d
+	case alStPaletted:
+		d := image.NewPaletted(rect, alPaletteGraded())
+		each(func(x, y int, c color.NRGBA) { d.SetColorIndex(ox+x, oy+y, c.A) })
+		return d
+	case alStAlpha:
+		d := image.NewAlpha(rect)
+		each(func(x, y int, c color.NRGBA) { d.SetAlpha(ox+x, oy+y, color.Alpha{c.A}) })
+		return d
 	}
+	d := image.NewNRGBA(rect)
+	each(func(x, y int, c color.NRGBA) { d.SetNRGBA(ox+x, oy+y, c) })
+	if pl.st == alStGeneric {
+		return alGenericImage{d}
+	}
+	return d
+}
+
+// imgFromAlphaAt wraps alpha samples into an image of the given storage kind whose Bounds().Min is (ox, oy)
+// (for the two sub-image kinds (ox, oy) is the parent's Min). The expected plane of op alextract is p itself:
+// the alpha the picture holds at (Min.X+x, Min.Y+y) is p[y*w+x].
+func imgFromAlphaAt(p []byte, w, h int, pl alPlace) image.Image {
 	img := image.NewNRGBA(image.Rect(0, 0, w, h))
 	for y := 0; y < h; y++ {
 		for x := 0; x < w; x++ {
 			img.SetNRGBA(x, y, color.NRGBA{byte(x * 7), byte(y * 5), 9, p[y*w+x]})
 		}
 	}
-	return img
+	return alStore(img, pl)
 }
 
-func mkExtract(kind int) func(w, h int, p []byte) (string, string) {
+// imgFromAlpha: storage kind at the origin.
+func imgFromAlpha(p []byte, w, h, kind int) image.Image {
+	return imgFromAlphaAt(p, w, h, alPlace{st: kind})
+}
+
+func mkExtractAt(pl alPlace) func(w, h int, p []byte) (string, string) {
 	return func(w, h int, p []byte) (string, string) {
 		g, _ := guard(func() string {
-			img := imgFromAlpha(p, w, h, kind)
+			img := imgFromAlphaAt(p, w, h, pl)
 			return fmt.Sprintf("ok has=%s %s", b2s(webp.VerifImageHasAlpha(img)), digestOpt(webp.VerifExtractAlpha(img)))
 		})
 		return "alextract " + hx(p), g
 	}
+}
+
+func mkExtract(kind int) func(w, h int, p []byte) (string, string) {
+	return mkExtractAt(alPlace{st: kind})
+}
+
+func (p alPlace) input() map[string]any {
+	return map[string]any{"storage": alStorageNames[p.st], "ox": p.ox, "oy": p.oy}
+}
+
+// alPlaceFromInput reads the storage kind and origin of a replay input (absent = NRGBA at the origin).
+func alPlaceFromInput(in map[string]any) (alPlace, bool) {
+	var pl alPlace
+	if n, present := in["storage"].(string); present {
+		st, ok := alStorageByName(n)
+		if !ok {
+			return pl, false
+		}
+		pl.st = st
+	}
+	if v, ok := in["ox"].(float64); ok {
+		pl.ox = int(v)
+	}
+	if v, ok := in["oy"].(float64); ok {
+		pl.oy = int(v)
+	}
+	return pl, true
 }
 
 // alphaEncOracle computes the four lossless.Encode values EncodeAlpha may ask for.
@@ -367,6 +521,9 @@ func goDecLine(data []byte, w, h int) (line, goL string) {
 
 // ---------- batch: run, compare, shrink ----------
 
+// alMaxShrinkPerSig: findings minimised per signature and batch (Report.Add keeps five per signature).
+const alMaxShrinkPerSig = 2
+
 type alBatch struct {
 	rep   *Report
 	items []alItem
@@ -374,6 +531,11 @@ type alBatch struct {
 
 func (b *alBatch) addPlane(kind string, w, h int, p []byte, mk func(w, h int, p []byte) (string, string), soft bool) {
 	b.items = append(b.items, alItem{kind: kind, remk: mk, w: w, h: h, plane: p, soft: soft})
+}
+
+// addPlaneX: addPlane with a signature suffix and extra replay input.
+func (b *alBatch) addPlaneX(kind, sig string, w, h int, p []byte, mk func(w, h int, p []byte) (string, string), extra map[string]any) {
+	b.items = append(b.items, alItem{kind: kind, sig: sig, remk: mk, w: w, h: h, plane: p, extra: extra})
 }
 
 func (b *alBatch) addLine(kind, line, goL string) {
@@ -450,6 +612,7 @@ func (b *alBatch) run() error {
 	if err != nil {
 		return err
 	}
+	shrunkPerSig := map[string]int{} // shrinking runs the model once per candidate: only the first findings of a signature are minimised
 	for i, it := range b.items {
 		rep.Count("op:" + it.kind)
 		res := strings.SplitN(it.goL, " ", 3)
@@ -506,14 +669,26 @@ func (b *alBatch) run() error {
 		in := map[string]any{"op": "alline", "line": it.line}
 		detail := fmt.Sprintf("go=%q lean=%q", short(it.goL, 200), short(lean[i], 200))
 		if it.remk != nil {
-			w, h, p, line, goL, ll := shrinkPlane(it)
-			in = map[string]any{"op": "alline", "line": line, "w": w, "h": h, "plane": hx(p)}
-			detail = fmt.Sprintf("shrunk to %dx%d: go=%q lean=%q", w, h, short(goL, 200), short(ll, 200))
+			if shrunkPerSig[it.kind+it.sig] < alMaxShrinkPerSig {
+				shrunkPerSig[it.kind+it.sig]++
+				w, h, p, line, goL, ll := shrinkPlane(it)
+				in = map[string]any{"op": "alline", "line": line, "w": w, "h": h, "plane": hx(p)}
+				detail = fmt.Sprintf("shrunk to %dx%d: go=%q lean=%q", w, h, short(goL, 200), short(ll, 200))
+			} else {
+				in = map[string]any{"op": "alline", "line": it.line, "w": it.w, "h": it.h, "plane": hx(it.plane)}
+				detail = fmt.Sprintf("%dx%d (not shrunk): ", it.w, it.h) + detail
+			}
+		}
+		for k, v := range it.extra {
+			in[k] = v
+		}
+		if it.sig != "" {
+			detail += " source" + it.sig
 		}
 		if it.goL == "panic" {
 			detail += " (Go panicked)"
 		}
-		rep.Add(Finding{Kind: "correspondence", Property: "C07", Signature: "alpha-model:" + it.kind, Detail: detail, Input: in})
+		rep.Add(Finding{Kind: "correspondence", Property: "C07", Signature: "alpha-model:" + it.kind + it.sig, Detail: detail, Input: in})
 	}
 	b.items = b.items[:0]
 	return nil
@@ -662,13 +837,19 @@ func alphaOf(img *image.NRGBA) []byte {
 	return p
 }
 
-// e2eCheck runs Encode -> Decode and evaluates C07; what == "" means the property held.
-func e2eCheck(img *image.NRGBA, o e2eOpts) (what, detail string) {
+// e2eCheck runs Encode -> Decode and evaluates C07; what == "" means the property held. img is the picture as
+// an origin-based NRGBA; the encoder is handed alStore(img, pl), i.e. the same picture (same alpha, exactly) in
+// storage kind pl.st on a rectangle with Min = (pl.ox, pl.oy).
+func e2eCheck(img *image.NRGBA, o e2eOpts, pl alPlace) (what, detail string) {
 	w, h := img.Bounds().Dx(), img.Bounds().Dy()
 	src := alphaOf(img)
 	_, smn, smx := planeStats(src)
+	stored := alStore(img, pl)
+	if sb := stored.Bounds(); sb.Dx() != w || sb.Dy() != h {
+		return "harness-storage", fmt.Sprintf("stored picture %v, source %dx%d", sb, w, h)
+	}
 	var buf bytes.Buffer
-	if err := webp.Encode(&buf, img, o.webp()); err != nil {
+	if err := webp.Encode(&buf, stored, o.webp()); err != nil {
 		return "encode-error", err.Error()
 	}
 	dec, err := webp.Decode(bytes.NewReader(buf.Bytes()))
@@ -728,8 +909,18 @@ func cropNRGBA(img *image.NRGBA, x0, y0, cw, ch int) *image.NRGBA {
 	return out
 }
 
-func shrinkE2E(img *image.NRGBA, o e2eOpts, what string) (*image.NRGBA, string) {
-	_, detail := e2eCheck(img, o)
+// e2eCheckG is e2eCheck under guard: a panic is the outcome "panic".
+func e2eCheckG(img *image.NRGBA, o e2eOpts, pl alPlace) (what, detail string) {
+	_, pm := guard(func() string { what, detail = e2eCheck(img, o, pl); return "" })
+	if pm != "" {
+		what, detail = "panic", pm
+	}
+	return
+}
+
+// shrinkE2E crops the picture while the same outcome is observed; storage kind and origin are kept.
+func shrinkE2E(img *image.NRGBA, o e2eOpts, pl alPlace, what string) (*image.NRGBA, string) {
+	_, detail := e2eCheckG(img, o, pl)
 	for step := 0; step < 60; step++ {
 		w, h := img.Bounds().Dx(), img.Bounds().Dy()
 		type cand struct{ x0, y0, cw, ch int }
@@ -746,8 +937,7 @@ func shrinkE2E(img *image.NRGBA, o e2eOpts, what string) (*image.NRGBA, string) 
 				continue
 			}
 			ni := cropNRGBA(img, c.x0, c.y0, c.cw, c.ch)
-			var wh, dt string
-			guard(func() string { wh, dt = e2eCheck(ni, o); return "" })
+			wh, dt := e2eCheckG(ni, o, pl)
 			if wh == what {
 				img, detail = ni, dt
 				progress = true
@@ -765,9 +955,52 @@ type e2eCase struct {
 	w, h, cls, acls int
 	idx             uint64
 	o               e2eOpts
+	pl              alPlace        // storage kind and bounds origin of the picture handed to the encoder
+	cheap           bool           // content from GenCheapImage (cls = cheap kind) instead of GenImage
+	tc              *ThresholdCase // the size crosses this threshold (recorded in the distribution)
+	wide            bool           // member of the WideWidths x WideHeights family
+}
+
+func (c e2eCase) class() string {
+	if c.cheap {
+		return cheapDesc(c.w, c.h, c.cls, c.acls)
+	}
+	return imgDesc(c.w, c.h, c.cls, c.acls)
+}
+
+func (c e2eCase) gen(seed uint64) *image.NRGBA {
+	r := NewRNG(seed, 40_000_000+c.idx)
+	if c.cheap {
+		return GenCheapImage(r, c.w, c.h, c.cls, c.acls)
+	}
+	return GenImage(r, c.w, c.h, c.cls, c.acls)
+}
+
+// e2eMaxPixHex: pictures with more bytes than this are recorded by their generator parameters, not literally.
+const e2eMaxPixBytes = 1 << 16
+
+// e2eInput is the replay input of a case: options, storage kind and origin, and the picture, literally
+// (w, h, pix) or - large cheap pictures that were not shrunk - by generator parameters.
+func e2eInput(c e2eCase, seed uint64, small *image.NRGBA, shrunk bool, what string) map[string]any {
+	in := map[string]any{"op": "alpha-e2e", "class": c.class(), "opts": c.o.String(), "what": what,
+		"w": small.Bounds().Dx(), "h": small.Bounds().Dy()}
+	for k, v := range c.pl.input() {
+		in[k] = v
+	}
+	if c.cheap && !shrunk && len(small.Pix) > e2eMaxPixBytes {
+		in["cheap"] = c.cls
+		in["acls"] = c.acls
+		in["genseed"] = strconv.FormatUint(seed, 10)
+		in["genidx"] = strconv.FormatUint(c.idx, 10)
+	} else {
+		in["pix"] = hex.EncodeToString(small.Pix)
+	}
+	return in
 }
 
 func runE2E(rep *Report, cases []e2eCase) {
+	var shrinkMu sync.Mutex
+	shrunkPerSig := map[string]int{}
 	var wg sync.WaitGroup
 	nw := runtime.NumCPU()
 	for wk := 0; wk < nw; wk++ {
@@ -776,12 +1009,14 @@ func runE2E(rep *Report, cases []e2eCase) {
 			defer wg.Done()
 			for i := wk; i < len(cases); i += nw {
 				c := cases[i]
-				r := NewRNG(rep.Seed, 40_000_000+c.idx)
-				img := GenImage(r, c.w, c.h, c.cls, c.acls)
-				desc := imgDesc(c.w, c.h, c.cls, c.acls) + " " + c.o.String()
+				img := c.gen(rep.Seed)
+				desc := c.class() + " " + c.o.String()
+				if !c.pl.isDefault() {
+					desc += " " + c.pl.String()
+				}
 				var what, detail string
 				var w2, d2 string
-				st, pm := guardT(func() string { w2, d2 = e2eCheck(img, c.o); return "" })
+				st, pm := guardT(func() string { w2, d2 = e2eCheck(img, c.o, c.pl); return "" })
 				if st == "skipped" {
 					continue
 				}
@@ -791,12 +1026,16 @@ func runE2E(rep *Report, cases []e2eCase) {
 				}
 				if st == "hang" {
 					what, detail = "hang", fmt.Sprintf("webp.Encode -> webp.Decode did not return within %v", hangLimit)
-					rep.Add(hangFinding("Decode", "webp.Encode -> webp.Decode of "+desc, map[string]any{"op": "alpha-e2e", "class": imgDesc(c.w, c.h, c.cls, c.acls), "opts": c.o.String(),
-						"w": c.w, "h": c.h, "pix": hex.EncodeToString(img.Pix), "what": "hang"}))
+					rep.Add(hangFinding("Decode", "webp.Encode -> webp.Decode of "+desc, e2eInput(c, rep.Seed, img, false, "hang")))
 				}
 				rep.Eval(c.acls != AlphaNone && c.w*c.h > 1, []byte(desc))
 				rep.Count("e2e:alpha:" + alphaClassNames[c.acls])
 				rep.Count("e2e:cfg:" + c.o.class())
+				rep.Count("e2e:storage:" + alStorageNames[c.pl.st])
+				rep.Count("e2e:origin:" + c.pl.originClass())
+				if c.o.exact && c.pl.st >= alStGeneric && c.pl.st <= alStAlpha && c.pl.ox != c.pl.oy && c.acls != AlphaNone {
+					rep.Count("e2e:exact+generic-storage+minx!=miny")
+				}
 				aq := c.o.aq
 				if aq < 0 {
 					aq = 100
@@ -810,20 +1049,39 @@ func runE2E(rep *Report, cases []e2eCase) {
 				default:
 					rep.Count("e2e:size:small")
 				}
+				if c.wide {
+					rep.Count(fmt.Sprintf("e2e:wide:w%d", c.w))
+					rep.Count(fmt.Sprintf("e2e:wide:h%d", c.h))
+				}
+				if c.tc != nil {
+					CountThreshold(rep, *c.tc)
+				}
 				if i%2999 == 0 {
 					rep.Sample(map[string]any{"e2e": desc, "result": what})
 				}
 				if what == "" {
 					continue
 				}
-				small := img
-				if what != "panic" && what != "hang" {
-					small, detail = shrinkE2E(img, c.o, what)
+				sig := "alpha:" + what + ":" + c.o.class()
+				if !c.pl.isDefault() {
+					sig += ":" + alStorageNames[c.pl.st]
 				}
-				rep.Add(Finding{Kind: "property", Property: "C07", Signature: "alpha:" + what + ":" + c.o.class(),
+				shrinkMu.Lock()
+				shrunkPerSig[sig]++
+				doShrink := shrunkPerSig[sig] <= 5 // Report.Add keeps five per signature
+				shrinkMu.Unlock()
+				small, shrunk := img, false
+				if doShrink && what != "hang" && what != "harness-storage" {
+					var d3 string
+					small, d3 = shrinkE2E(img, c.o, c.pl, what)
+					shrunk = small != img
+					if shrunk {
+						detail = d3
+					}
+				}
+				rep.Add(Finding{Kind: "property", Property: "C07", Signature: sig,
 					Detail: fmt.Sprintf("%s (found on %s, shrunk to %dx%d)", detail, desc, small.Bounds().Dx(), small.Bounds().Dy()),
-					Input: map[string]any{"op": "alpha-e2e", "class": imgDesc(c.w, c.h, c.cls, c.acls), "opts": c.o.String(),
-						"w": small.Bounds().Dx(), "h": small.Bounds().Dy(), "pix": hex.EncodeToString(small.Pix), "what": what}})
+					Input:  e2eInput(c, rep.Seed, small, shrunk, what)})
 			}
 		}(wk)
 	}
@@ -834,7 +1092,7 @@ func runE2E(rep *Report, cases []e2eCase) {
 
 func suiteAlpha(rep *Report) error {
 	rich := rep.Tier == "thorough"
-	rep.Rule = "(a) planes of classes binary/few/gradient/noise/ramp/flat/smooth/near at sizes 1x1, 1xN, Nx1 … 64x64 (thorough: also 320x320): every filter and inverse filter, filter map, quantiser (float64 model exact, rational model counted), header bytes, extractAlpha on NRGBA/sub-image/RGBA, EncodeAlpha raw and lossless (codec values handed to the model) incl. invalid configurations, all vs the Lean model; on Go alone unfilter(filter)=id, DecodeAlpha(EncodeAlpha)=id or =quantizeLevels, level count and min/max of quantizeLevels; (b) DecodeAlpha on every header byte 0..255 x raw payloads of right/short/long/empty length and on real lossless payloads under all 64 header variants, bad dimensions; (c) webp.Encode(lossy)->webp.Decode over AlphaCompression{0,1,-1} x AlphaFiltering{0,1,2,-1} x AlphaQuality{100,-1} x Method 0..6 x Exact x alpha pattern (decoded alpha == source alpha; opaque sources decode opaque) and AlphaQuality{0,1,50,70,71,99} (distinct decoded values <= documented count, min/max kept). non-trivial = protocol line with a payload / image with transparency and more than one pixel"
+	rep.Rule = "(a) planes of classes binary/few/gradient/noise/ramp/flat/smooth/near at sizes 1x1, 1xN, Nx1 … 64x64 (thorough: also 320x320): every filter and inverse filter, filter map, quantiser (float64 model exact, rational model counted), header bytes, extractAlpha/imageHasAlpha on the fast-path storages NRGBA / sub-image / RGBA / full-width sub-image band and on the generic-path storages image.Image-only wrapper / NRGBA64 / RGBA64 / Paletted (graded-alpha palette) / Alpha placed on rectangles with Min=(mx,my) drawn from negative, (k,0), (0,k), mixed and equal origins, EncodeAlpha raw and lossless (codec values handed to the model) incl. invalid configurations, all vs the Lean model; on Go alone unfilter(filter)=id, DecodeAlpha(EncodeAlpha)=id or =quantizeLevels, level count and min/max of quantizeLevels; (b) DecodeAlpha on every header byte 0..255 x raw payloads of right/short/long/empty length and on real lossless payloads under all 64 header variants, bad dimensions; (c) webp.Encode(lossy)->webp.Decode over AlphaCompression{0,1,-1} x AlphaFiltering{0,1,2,-1} x AlphaQuality{100,-1} x Method 0..6 x Exact x alpha pattern (decoded alpha == source alpha; opaque sources decode opaque) and AlphaQuality{0,1,50,70,71,99} (distinct decoded values <= documented count, min/max kept); the same oracle over source storage kind (the nine kinds above) x bounds origin (Min.X != Min.Y in most cases) x Exact{false,true}, over wide pictures WideWidths{1023..4097} x WideHeights{1..4} and over a draw of threshold-crossing sizes (width/height/pixels thresholds >= 200 of thresholds.go, at most 120000 pixels; thorough: all of them) with cheap content; a panic anywhere in Encode->Decode is a finding. non-trivial = protocol line with a payload / image with transparency and more than one pixel"
 
 	b := &alBatch{rep: rep}
 
@@ -956,6 +1214,18 @@ func suiteAlpha(rep *Report) error {
 		}
 		if !big {
 			b.addPlane("alextract", q.w, q.h, q.p, mkExtract(r.Intn(3)), false)
+			// storage kinds and bounds origins: one more fast-path placement (any of the four fast-path kinds, any
+			// origin) and one generic-path placement (kinds 3..7) per plane; draws from a generator of their own
+			rs := NewRNG(rep.Seed, 30_500_000+uint64(k))
+			fast := alPlace{st: []int{alStNRGBA, alStSubNRGBA, alStRGBA, alStSubBand, alStSubBand}[rs.Intn(5)]}
+			fast.ox, fast.oy = alDrawOrigin(rs)
+			gen := alPlace{st: alStGeneric + rs.Intn(alStAlpha-alStGeneric+1)}
+			gen.ox, gen.oy = alDrawOrigin(rs)
+			for _, pl := range []alPlace{fast, gen} {
+				rep.Count("alextract:storage:" + alStorageNames[pl.st])
+				rep.Count("alextract:origin:" + pl.originClass())
+				b.addPlaneX("alextract", ":"+alStorageNames[pl.st], q.w, q.h, q.p, mkExtractAt(pl), pl.input())
+			}
 		}
 		// EncodeAlpha: raw, and lossless with the codec oracle
 		b.addPlane("alenc-raw", q.w, q.h, q.p, mkEnc([]int{100, 100, r.Intn(100), 99, 0}[r.Intn(5)], 0, modes[r.Intn(len(modes))], r.Intn(7), nil, nil), false)
@@ -1162,7 +1432,7 @@ func suiteAlpha(rep *Report) error {
 	smallSizes := [][2]int{{1, 1}, {1, 19}, {23, 1}, {2, 2}, {7, 5}, {16, 16}, {17, 33}, {33, 17}, {40, 24}, {64, 64}, {64, 3}, {5, 61}}
 	add := func(w, h, cls, acls int, o e2eOpts) {
 		eidx++
-		cases = append(cases, e2eCase{w, h, cls, acls, eidx, o})
+		cases = append(cases, e2eCase{w: w, h: h, cls: cls, acls: acls, idx: eidx, o: o})
 	}
 	rounds := 1
 	if rich {
@@ -1252,6 +1522,79 @@ func suiteAlpha(rep *Report) error {
 			}
 		}
 	}
+	// storage kind of the source x bounds origin x Exact (the encoder's alpha extraction and its transparent-area
+	// clean-up have one code path per concrete image type; the generic path addresses pixels by Bounds().Min)
+	stRounds := 6
+	if rich {
+		stRounds = 60
+	}
+	for round := 0; round < stRounds; round++ {
+		for st := 0; st < numAlStorage; st++ {
+			for _, exact := range []bool{false, true} {
+				r := NewRNG(rep.Seed, 41_000_000+uint64(len(cases)))
+				pl := alPlace{st: st}
+				pl.ox, pl.oy = alDrawOrigin(r)
+				if st == alStNRGBA && pl.ox == 0 && pl.oy == 0 {
+					pl.ox, pl.oy = -3, 2 // NRGBA at the origin is what every other case uses
+				}
+				o := e2eOpts{r.Intn(3) - 1, r.Intn(4) - 1, []int{100, -1, 100, 100, 50, 0}[r.Intn(6)], r.Intn(7), exact, []int{0, 50, 75, 100}[r.Intn(4)]}
+				acls := alphaClasses[r.Intn(len(alphaClasses))]
+				if r.Chance(1, 12) {
+					acls = AlphaNone
+				}
+				s := smallSizes[r.Intn(len(smallSizes))]
+				eidx++
+				cases = append(cases, e2eCase{w: s[0], h: s[1], cls: r.Intn(NumImgClasses), acls: acls, idx: eidx, o: o, pl: pl})
+			}
+		}
+	}
+	// wide pictures (row scratch buffers of the decoder's upsampler / alpha application: 1024, 2048, 4096 pixels)
+	// and threshold-crossing sizes, cheap content
+	{
+		cheapAlpha := []int{AlphaGradient, AlphaBinary, AlphaSparse, AlphaSemiFlat, AlphaFewLevels, AlphaGradient, AlphaBinary, AlphaAllZero}
+		addCheap := func(w, h int, tc *ThresholdCase, wide bool, salt uint64) {
+			r := NewRNG(rep.Seed, 42_000_000+salt)
+			pl := alPlace{}
+			if r.Chance(1, 4) {
+				pl.st = r.Intn(numAlStorage)
+				pl.ox, pl.oy = alDrawOrigin(r)
+			}
+			acls := cheapAlpha[r.Intn(len(cheapAlpha))]
+			if r.Chance(1, 10) {
+				acls = AlphaNone
+			}
+			method := r.Intn(7)
+			if w*h > 60000 && !rich {
+				method = r.Intn(3)
+			}
+			o := e2eOpts{r.Intn(3) - 1, r.Intn(4) - 1, []int{100, -1, 100, 50}[r.Intn(4)], method, r.Bool(), []int{50, 75, 90}[r.Intn(3)]}
+			eidx++
+			cases = append(cases, e2eCase{w: w, h: h, cls: r.Intn(NumCheapClasses), acls: acls, idx: eidx, o: o, pl: pl, cheap: true, tc: tc, wide: wide})
+		}
+		wrounds := 1
+		if rich {
+			wrounds = 6
+		}
+		salt := uint64(0)
+		for round := 0; round < wrounds; round++ {
+			for _, w := range WideWidths {
+				for _, h := range WideHeights {
+					salt++
+					addCheap(w, h, nil, true, salt)
+				}
+			}
+		}
+		tf := ThresholdFilter{Units: []string{"width", "height", "pixels"}, MaxPixels: 120000, MinValue: 200}
+		tcs := DrawThresholdCases(rep.Seed, 0xa1fa, 10, tf)
+		if rich {
+			tcs = ThresholdCases(tf)
+		}
+		for k := range tcs {
+			salt++
+			addCheap(tcs[k].W, tcs[k].H, &tcs[k], false, salt)
+		}
+		rep.CountN("e2e:threshold-cases-available", len(ThresholdCases(tf)))
+	}
 	rep.CountN("e2e:encodes", len(cases))
 	runE2E(rep, cases)
 	return nil
@@ -1282,7 +1625,19 @@ func replayAlphaLine(in map[string]any) int {
 		_, goL = mkFmap(iv(1), iv(2))(iv(3), iv(4), unhx(f[5]))
 	case "alextract":
 		p := unhx(f[1])
-		_, goL = mkExtract(0)(len(p), 1, p)
+		w, h := len(p), 1
+		if iw, ok := in["w"].(float64); ok {
+			if ih, ok := in["h"].(float64); ok && int(iw)*int(ih) == len(p) {
+				w, h = int(iw), int(ih)
+			}
+		}
+		pl, ok := alPlaceFromInput(in)
+		if !ok {
+			fmt.Println("bad replay input: unknown storage kind")
+			return 2
+		}
+		fmt.Printf("source: %dx%d %s\n", w, h, pl)
+		_, goL = mkExtractAt(pl)(w, h, p)
 	case "aldec":
 		_, goL = goDecLine(unhx(f[3]), iv(1), iv(2))
 	case "alenc":
@@ -1339,25 +1694,40 @@ func replayAlphaPlane(in map[string]any) int {
 	return 0
 }
 
-// replayAlphaE2E re-runs Encode -> Decode on the literal image and options.
+// replayAlphaE2E re-runs Encode -> Decode on the recorded picture (literal pixels, or the generator parameters of a
+// large cheap picture), options, storage kind and bounds origin.
 func replayAlphaE2E(in map[string]any) int {
 	num := func(k string) int { v, _ := in[k].(float64); return int(v) }
 	w, h := num("w"), num("h")
-	ps, _ := in["pix"].(string)
-	pix, err := hex.DecodeString(ps)
 	os_, _ := in["opts"].(string)
 	o, ok := parseE2EOpts(os_)
-	if err != nil || !ok || len(pix) != 4*w*h {
+	pl, okp := alPlaceFromInput(in)
+	if !ok || !okp || w < 1 || h < 1 {
 		fmt.Println("bad replay input")
 		return 2
 	}
-	img := image.NewNRGBA(image.Rect(0, 0, w, h))
-	copy(img.Pix, pix)
-	var what, detail string
-	_, pm := guard(func() string { what, detail = e2eCheck(img, o); return "" })
-	if pm != "" {
-		what, detail = "panic", pm
+	var img *image.NRGBA
+	if ps, lit := in["pix"].(string); lit {
+		pix, err := hex.DecodeString(ps)
+		if err != nil || len(pix) != 4*w*h {
+			fmt.Println("bad replay input")
+			return 2
+		}
+		img = image.NewNRGBA(image.Rect(0, 0, w, h))
+		copy(img.Pix, pix)
+	} else {
+		gs, _ := in["genseed"].(string)
+		gi, _ := in["genidx"].(string)
+		seed, e1 := strconv.ParseUint(gs, 10, 64)
+		idx, e2 := strconv.ParseUint(gi, 10, 64)
+		if _, isCheap := in["cheap"].(float64); !isCheap || e1 != nil || e2 != nil {
+			fmt.Println("bad replay input")
+			return 2
+		}
+		img = e2eCase{w: w, h: h, cls: num("cheap"), acls: num("acls"), idx: idx, cheap: true}.gen(seed)
 	}
+	fmt.Printf("source: %dx%d %s opts %s\n", w, h, pl, o)
+	what, detail := e2eCheckG(img, o, pl)
 	fmt.Printf("go: %s %s\n", what, detail)
 	if what != "" {
 		return 1
